@@ -22,6 +22,7 @@ the ephemeron rounds `ephRounds` run on the shadow heap as it was before the op;
 | `gc:enum-dup` `gc:enum-missing` `gc:enum-extra` | C07 | `enum` lists an id twice / misses a valid object / (after a full-heap GC) lists a reclaimed one |
 | `gc:ismo-missing` `gc:ismo-stale` | C06 C07 C08 | `ismo a`: a valid object at `a` is not recognised / an answer where no valid object is |
 | `gc:findint-mismatch` | C08 | `findint p n` ≠ `Mmtk.IntPtr.findFromInternal` on the valid-object set (`spaces`, `ismapped` feed the SFT / chunk map) |
+| `gc:findint-crash` | C08 | the process died inside a `findint` (result `crash:rc=N`) |
 | `gc:satb-lost` `gc:satb-protocol` | C12 | after FinalMark (`satb initial` / `satb final` markers of the runner) an object of the InitialMark snapshot / allocated during marking is not a valid object |
 | `gc:weak-not-drained` `gc:weak-sentinel` `gc:weak-rounds` `gc:weak-next-bucket` `gc:forward-weak` | C13 | `events`: the log is not a run of `Mmtk.WeakRounds` (Driver/GCWeak/Events.lean), wrong answers, forward_weak_refs misplaced |
 | `gc:ephdump-mismatch` | C13 | `ephdump` ≠ the ephemeron table the model keeps |
@@ -402,6 +403,11 @@ def snapReferents (st : St) (res : List String) : Option String :=
       else none)
 
 def pairW (st : St) (op res : List String) : St × String :=
+  -- C08: a lookup is a query that answers for every address and every limit (`findLos_none_of_no_vo`, `findLos_reads_mapped_only`);
+  -- a process that dies inside it (the runner's `crash:rc=N`) broke the property, it is not a machinery error
+  if op.head? == some "findint" && (res.headD "").startsWith "crash:" then
+    (st, viol "gc:findint-crash" s!"the process died in find_object_from_internal_pointer({" ".intercalate (op.drop 1)}): {res.headD ""}")
+  else
   let pre := st.g
   let (g', o) := Driver.GCMon.pair st.g op res
   let st := { st with g := g' }
